@@ -2414,6 +2414,9 @@ class Normalizer:
                 r = (qn, b.value)
         elif isinstance(node, ast.Attribute):
             rr = prog.resolve_expr(fi.module, node, fi.cls)
+            if rr is not None and rr[0] == 'assign' and isinstance(node.value, ast.Name) and node.value.id in ('self', 'cls') and fi.cls is not None \
+                    and any(node.attr in sub.attrs for sub in prog.subclasses(fi.cls, strict=True)):
+                rr = None           # a sub-class gives the attribute another value: not a constant of this method
             if rr is not None and rr[0] == 'assign':
                 owner = rr[3].qualname if rr[3] is not None else rr[2].name
                 r = (f'{owner}.{node.attr}', rr[1])
